@@ -254,6 +254,20 @@ func typeNameFor(kind string) string {
 // Scalar draws a scalar example with a rule set allowed by the compatibility table; the rules may
 // or may not hold.
 func Scalar(t *rapid.T, o ScalarOpts, label string) *model.Node {
+	if !o.Satisfied {
+		return scalarOnce(t, o, label)
+	}
+	for i := 0; i < 8; i++ {
+		n := scalarOnce(t, o, fmt.Sprintf("%s#%d", label, i))
+		res := rules.Evaluate(&model.Project{Root: n, Types: o.Types, Enums: o.Enums})
+		if res.Satisfied() && len(res.Ambiguous) == 0 {
+			return n
+		}
+	}
+	return model.Scalar("integer", "1")
+}
+
+func scalarOnce(t *rapid.T, o ScalarOpts, label string) *model.Node {
 	kind := rapid.SampledFrom([]string{"string", "integer", "float", "boolean", "null", "integer", "float", "string"}).Draw(t, label+"kind")
 	n := &model.Node{Kind: kind}
 	switch kind {
@@ -456,6 +470,13 @@ func Tree(t *rapid.T, o TreeOpts, depth int, label string) *model.Node {
 			if rapid.IntRange(0, 3).Draw(t, label+"zb") == 0 {
 				n.Rules = append(n.Rules, model.R(rapid.SampledFrom([]string{"minItems", "maxItems"}).Draw(t, label+"zbn"), model.Num("0")))
 			}
+		} else if o.Scalar.Satisfied {
+			if rapid.IntRange(0, 2).Draw(t, label+"ai") == 0 {
+				n.Rules = append(n.Rules, model.R("minItems", model.Num(fmt.Sprint(max0(cnt-rapid.IntRange(0, 1).Draw(t, label+"lo"))))))
+			}
+			if rapid.IntRange(0, 2).Draw(t, label+"aj") == 0 {
+				n.Rules = append(n.Rules, model.R("maxItems", model.Num(fmt.Sprint(cnt+rapid.IntRange(0, 1).Draw(t, label+"hi")))))
+			}
 		} else if rapid.IntRange(0, 2).Draw(t, label+"ai") == 0 {
 			lo := max0(cnt + rapid.IntRange(-1, 1).Draw(t, label+"lo"))
 			n.Rules = append(n.Rules, model.R("minItems", model.Num(fmt.Sprint(lo))))
@@ -487,6 +508,7 @@ type ProjectOpts struct {
 	Container  bool // may add a container type @obj reachable through value shortcuts
 	EnumNotes  bool // enum rules / inline lists may carry item comments
 	Depth      int  // max depth of the root tree (default 3)
+	Satisfied  bool // every example satisfies its rules (by construction / bounded re-drawing)
 }
 
 // Project draws a project of scalar types, optional enum rule and a root tree; examples may or may
@@ -512,7 +534,7 @@ func Project(t *rapid.T, o ProjectOpts) *model.Project {
 		}
 		p.Enums = append(p.Enums, e)
 	}
-	so := ScalarOpts{Enums: p.Enums}
+	so := ScalarOpts{Enums: p.Enums, Satisfied: o.Satisfied}
 	nt := rapid.IntRange(0, o.MaxTypes).Draw(t, "ntypes")
 	for i := 0; i < nt; i++ {
 		name := fmt.Sprintf("@s%d", i)
